@@ -32,6 +32,7 @@ pub fn case(ctx: &Ctx, idx: u64) -> CaseOut {
         let max_dep = if ctx.thorough() { *rng.pick(&[5, 8, 14]) } else { *rng.pick(&[3, 5, 8]) };
         let mut opts = crate::gen::GenOpts::new(profile, max_dep);
         opts.force_slots = true;
+        opts.rotation_rich = rng.chance(1, 3);
         let tag = format!("l{}c{}", ctx.seed, idx);
         let input = crate::gen::generate(&mut rng, &opts, &tag);
         (input, tag, profile.name(), rng)
